@@ -474,7 +474,66 @@ func c08ErrorPaired(c *Ctx, reach map[*ssa.Function]bool) {
 				if st == nilNever {
 					continue
 				}
-				for _, u := range *val.Referrers() {
+				// the uses of the result, also where it flows on through phi nodes (joins left by the helper inliner,
+				// conditional assignments): carrier is the value actually dereferenced
+				type useAt struct {
+					u       ssa.Instruction
+					carrier ssa.Value
+				}
+				var uses []useAt
+				seenV := map[ssa.Value]bool{}
+				var collect func(v ssa.Value, d int)
+				collect = func(v ssa.Value, d int) {
+					if d > 3 || seenV[v] || v.Referrers() == nil {
+						return
+					}
+					seenV[v] = true
+					for _, u := range *v.Referrers() {
+						if ph, ok := u.(*ssa.Phi); ok {
+							// the value enters the join on some edges only: where every such edge already excludes the
+							// failure (taken only when the call succeeded, or after a nil test), the join carries no nil of ours
+							open := false
+							for i, e := range ph.Edges {
+								if e != v {
+									continue
+								}
+								pred := ph.Block().Preds[i]
+								term := pred.Instrs[len(pred.Instrs)-1]
+								g := false
+								if ei >= 0 {
+									g = w.requires(fn, term, errNil(call), true)
+									if !g {
+										if ifi, isIf := term.(*ssa.If); isIf && pred.Succs[0] != pred.Succs[1] {
+											a := w.atom(ifi.Cond)
+											keyVal := !a.Neg
+											if pred.Succs[1] == ph.Block() {
+												keyVal = a.Neg
+											}
+											if errNil(call)(a) && keyVal {
+												g = true
+											}
+										}
+									}
+								}
+								if !g {
+									nilT := func(a Atom) bool { return a.Kind == "nil" && strip(a.X) == strip(v) }
+									g = w.requires(fn, term, nilT, false)
+								}
+								if !g {
+									open = true
+								}
+							}
+							if open {
+								collect(ph, d+1)
+							}
+							continue
+						}
+						uses = append(uses, useAt{u, v})
+					}
+				}
+				collect(val, 0)
+				for _, ua := range uses {
+					u, val := ua.u, ua.carrier
 					deref := false
 					switch x := u.(type) {
 					case *ssa.FieldAddr:
